@@ -38,6 +38,11 @@ def fold( e, env=None ):
         return tuple( fold( x, env ) for x in e.elts )
     if isinstance( e, ast.List ):
         return [ fold( x, env ) for x in e.elts ]
+    if isinstance( e, ast.Set ):
+        try:
+            return set( fold( x, env ) for x in e.elts )
+        except TypeError as exc:
+            raise NoFold( str( exc ))
     if isinstance( e, ast.Slice ):
         return slice( fold( e.lower, env ) if e.lower is not None else None, fold( e.upper, env ) if e.upper is not None else None,
                       fold( e.step, env ) if e.step is not None else None )
